@@ -59,7 +59,7 @@ inline std::string gen_scenario(const unsigned char *data, size_t size, const st
   if (c.chance(1, 10)) addflag("NOCHECKRESP");
   if ((pf.search && c.chance(1, 6)) || prop == "C08") addflag("NOSEARCH");   // C08 is about the cache key of the name as given
   if (pf.search && c.chance(1, 8)) addflag("NOALIASES");
-  int tries = 1 + (int)c.pick(4); if (prop == "C12" && c.chance(1, 2)) tries = 1; if (pf.bigtries && c.chance(1, 4)) { static const int bt[] = {8, 17, 33, 64, 65, 70, 100}; tries = bt[c.pick(7)]; }
+  int tries = 1 + (int)c.pick(4); if ((prop == "C12" || prop == "C13") && c.chance(1, 2)) tries = 1; if (pf.bigtries && c.chance(1, 4)) { static const int bt[] = {8, 17, 33, 64, 65, 70, 100}; tries = bt[c.pick(7)]; }
   static const int touts[] = {2000, 300, 1, 250, 251, 1000, 5000, 7000, 100000}; int timeout = touts[c.pick(9)];
   int maxt = c.chance(1, 3) ? (int)(std::max(timeout, 250) * (1 + c.pick(4))) : 0;
   o += "opt flags=" + (flags.empty() ? std::string("NONE") : flags) + " tries=" + std::to_string(tries) + " timeout=" + std::to_string(timeout) + " maxtimeout=" + std::to_string(maxt);
@@ -82,19 +82,20 @@ inline std::string gen_scenario(const unsigned char *data, size_t size, const st
   o += "\n";
   unsigned nserv = 1 + c.pick(pf.failover ? 5 : 3);
   if (prop == "C20") nserv = 1;
-  if (prop == "C12" && tries == 1 && c.chance(2, 3)) nserv = 1;   // with several servers the choice of the next server depends on how replies are batched into reads, which segmentation legitimately changes
+  if ((prop == "C12" || prop == "C13") && tries == 1 && c.chance(2, 3)) nserv = 1;   // with several servers the choice of the next server depends on how replies are batched into reads, which segmentation legitimately changes
   o += "servers";
   for (unsigned i = 0; i < nserv; i++) { if (c.chance(1, 6)) o += " [fd00::" + std::to_string(i + 1) + "]:53"; else o += " 10.0.0." + std::to_string(i + 1) + (c.chance(1, 8) ? ":5353" : ""); }
   o += "\n";
   // ---- server behaviour
   {
     static const char *ws[] = {"answer=6 nxdomain=1 nodata=1 servfail=1 silence=2 tc=1", "answer=1", "answer=3 silence=3", "answer=2 nxdomain_soa=2 nodata_soa=2 nxdomain=1 nodata=1", "answer=4 servfail=2 refused=1 notimp=1 formerr=1 formerr_opt=1", "answer=3 tc=2 garbage=1 empty=1 dup=1 delay=2", "silence=1", "answer=3 reset=1 eofmid=1 tc=2 silence=1", "answer=4 delay=3 dup=1", "answer=2 badcookie=2 silence=1", "answer=4 nxdomain=1 nodata_soa=1 tc=3 empty=2 dup=1 servfail=1", "answer=3 tc=2 empty=1", "answer=2 nxdomain_soa=2 nodata_soa=1 nxdomain=1 nodata=1 servfail=2 refused=1"};
-    unsigned wi = c.pick(10); if (prop == "C06" && c.chance(1, 3)) wi = 6; if (prop == "C08" || prop == "C13") wi = c.chance(2, 3) ? 3 : 1; if (prop == "C12") wi = c.chance(1, 2) ? 3 : 12; if (prop == "C17") wi = c.chance(1, 2) ? 9 : 1; if (prop == "C20") wi = 10 + c.pick(2);
+    unsigned wi = c.pick(10); if (prop == "C06" && c.chance(1, 3)) wi = 6; if (prop == "C08") wi = c.chance(2, 3) ? 3 : 1; if (prop == "C13") wi = c.chance(1, 2) ? 3 : (c.chance(1, 2) ? 1 : 12); if (prop == "C12") wi = c.chance(1, 2) ? 3 : 12; if (prop == "C17") wi = c.chance(1, 2) ? 9 : 1; if (prop == "C20") wi = 10 + c.pick(2);
     o += std::string("weights ") + ws[wi] + "\n";
     unsigned nr = prop == "C20" ? 0 : c.pick(3);
     for (unsigned i = 0; i < nr; i++) o += "rule " + (c.chance(1, 2) ? std::string("*") : std::to_string(c.pick(nserv))) + " " + (c.chance(1, 2) ? std::string("*") : "r" + std::to_string(1 + c.pick(pf.max_reqs))) + " " + (c.chance(1, 2) ? std::string("*") : std::to_string(c.pick(3))) + " " + kOutcomeNames[c.pick(O__COUNT)] + "\n";
     if (pf.cookies || c.chance(1, 5)) for (unsigned i = 0; i < nserv; i++) { static const char *cm[] = {"valid", "valid", "none", "changing", "wrongclient", "short"}; o += "cookie " + std::to_string(i) + " " + cm[c.pick(6)] + "\n"; }
   }
+  if (prop == "C09" && c.chance(1, 3)) { static const char *errs[] = {"ECONNREFUSED", "ECONNRESET", "ENETUNREACH"}; unsigned nf = 1 + c.pick(2); for (unsigned i = 0; i < nf; i++) o += std::string("fail arecvfrom ") + std::to_string(1 + c.pick(5)) + " " + errs[c.pick(3)] + "\n"; }
   if (pf.faults) { unsigned nf = c.pick(3); for (unsigned i = 0; i < nf; i++) { static const char *calls[] = {"asendto", "arecvfrom", "aconnect", "asocket", "agetsockname", "asetsockopt"}; static const char *errs[] = {"ECONNREFUSED", "ECONNRESET", "ENETUNREACH", "EMFILE", "EWOULDBLOCK", "EINTR", "EACCES"}; o += std::string("fail ") + calls[c.pick(6)] + " " + std::to_string(1 + c.pick(6)) + " " + errs[c.pick(7)] + "\n"; } }
   if (pf.chop || c.chance(1, 8)) { if (c.chance(2, 3)) { o += "chop "; unsigned n = 1 + c.pick(4); for (unsigned i = 0; i < n; i++) o += (i ? "," : "") + std::to_string(1 + c.pick(c.chance(1, 2) ? 3 : 40)); o += "\n"; } if (c.chance(1, 2)) { o += "partial "; unsigned n = 1 + c.pick(4); for (unsigned i = 0; i < n; i++) o += (i ? "," : "") + std::to_string(c.pick(c.chance(1, 2) ? 4 : 50)); o += ",64\n"; } }
   if (pf.search && c.chance(1, 3)) o += "alias r" + std::to_string(1 + c.pick(3)) + " target" + std::to_string(c.pick(3)) + ".alias.test\n";
@@ -102,6 +103,14 @@ inline std::string gen_scenario(const unsigned char *data, size_t size, const st
   // ---- body
   unsigned nreq = 1 + c.pick((unsigned)pf.max_reqs); int id = 0; unsigned body = nreq + c.pick(10);
   std::vector<int> ids;
+  if (prop == "C17" && c.chance(1, 6)) {
+    // regression production without an adversary: support proven, the server stops sending cookies (at an instant with or without a zero microsecond part), the period passes, a new request must get through
+    std::string o2 = o.substr(0, o.find("opt ")) + "opt flags=EDNS tries=1 timeout=2000 maxtimeout=0 qcache=0 domains=first.test sockstate=1 process=fds\nservers 10.0.0.1\nweights answer=1\ncookie 0 valid\n";
+    o2 += "req 1 query r1.test A\nstep\nstep\ncookiemode 0 none\n"; if (c.chance(2, 3)) o2 += "adv 999999us\n"; if (c.chance(1, 2)) o2 += "adv " + std::to_string(1 + c.pick(50)) + "s\n";
+    o2 += "req 2 query r2.test A\nstep\nstep\nadv timeout\nstep\n"; static const char *w2[] = {"adv 121s", "adv 125s", "adv 119s", "adv 301s", "adv 3600s"}; o2 += std::string(w2[c.pick(5)]) + "\n";
+    o2 += "req 3 query r3.test A\nstep\nstep\nadv timeout\nstep\n"; if (c.chance(1, 2)) o2 += "adv 130s\nreq 4 query r4.test A\nstep\nstep\n";
+    return o2;
+  }
   if (pf.cookies && c.chance(1, 3)) {
     // cookie life-cycle production: prove support, a cookie-less reply, more valid traffic, cross a timer, then test again
     o += "cookie 0 valid\nrule 0 * * answer\n";
@@ -147,6 +156,7 @@ inline std::string gen_scenario(const unsigned char *data, size_t size, const st
       if (prop == "C12") { static const char *ks[] = {"search", "lsearch", "getaddrinfo", "gethostbyname", "search"}; kind = ks[c.pick(5)]; }
       if (prop == "C13") { static const char *ks[] = {"getaddrinfo", "gethostbyname", "gethostbyaddr", "getnameinfo", "getaddrinfo"}; kind = ks[c.pick(5)]; }
       std::string name = gen_req_name(c, (prop == "C08" && id > 1) ? 1 + (int)c.pick(2) : id, pf);
+      if (prop == "C13" && (kind == "getaddrinfo" || kind == "gethostbyname") && c.chance(1, 5)) name = "r" + std::to_string(id);   // single label: walks the search list
       if (prop == "C13" && (kind == "getaddrinfo" || kind == "gethostbyname") && c.chance(1, 10)) name = c.chance(1, 2) ? "192.0.2." + std::to_string(50 + c.pick(100)) : "2001:db8::" + std::to_string(1 + c.pick(200));   // numeric host names
       if (prop == "C08") { static const char *forms[] = {"r%d.test", "r%d.test", "R%d.TEST", "r%d.test.", "r%d.Test"}; char nb[64]; snprintf(nb, sizeof nb, forms[c.pick(5)], 1 + (int)c.pick(2)); name = nb; }
       bool inject_now = pf.inject && c.chance(2, 3);
